@@ -3043,6 +3043,8 @@ class TypeBlocks(ContainerOperand):
         if unified.ndim == 2:
             condition_axis = 0 if axis else 1
             to_drop = condition(unified, axis=condition_axis)
+        elif axis == 1: # ndim == 1, a single column: condition applies to the whole array
+            to_drop = np.array((condition(unified),), dtype=DTYPE_BOOL)
         else: #ndim == 1
             to_drop = unified
         to_keep = np.logical_not(to_drop)
